@@ -23,6 +23,7 @@
 """Defines the base Module class"""
 
 
+import math
 import time
 import threading
 from collections import OrderedDict
@@ -532,7 +533,9 @@ class Module(HasAccessibles):
 
         with self.updateLock:
             pobj = self.parameters[pname]
-            timestamp = timestamp or time.time()
+            if not timestamp or not math.isfinite(timestamp):
+                # a missing or not finite time stamp (it can not be transported) is replaced
+                timestamp = time.time()
             changed = False
             if not err:
                 try:
